@@ -803,6 +803,25 @@ def _path_raise(ctx: RuleCtx, ps: PathSym, ref: FuncRef, p: T.Any, depth: int = 
             if len(d) == 1 and d[0] is not None:
                 v = d[0]
         cls = _raised_class(v)
+        if (cls is None or not _known_exc(ctx.repo, cls)) and isinstance(v, ast.Call) and depth > 0:
+            # raise factory(): the classes of what the (repository / nested) factory function returns
+            fac = ps.resolve_callee(ref, v)
+            if fac is not None:
+                kinds = set()
+                for r in walk_no_nested(fac.node):
+                    if isinstance(r, ast.Return):
+                        rv: T.Optional[ast.AST] = r.value
+                        if isinstance(rv, ast.Name):
+                            d = ps.local_defs(fac.node).get(rv.id, [])
+                            rv = d[0] if len(d) == 1 and d[0] is not None else rv
+                        c2 = _raised_class(rv) if isinstance(rv, ast.Call) else None
+                        if c2 is None or not _known_exc(ctx.repo, c2):
+                            kinds.add('unknown')
+                        else:
+                            kinds.add('meson' if 'MesonException' in _ancestors(ctx.repo, c2) else 'other')
+                if len(kinds) == 1:
+                    return kinds.pop()
+            return 'unknown'
         if cls is None or not _known_exc(ctx.repo, cls):
             return 'unknown'
         return 'meson' if 'MesonException' in _ancestors(ctx.repo, cls) else 'other'
@@ -1499,6 +1518,7 @@ class _LockImpl:
         self.cfgs: T.Dict[str, CFG] = {}
         self.region: T.Dict[str, FuncRef] = {}
         self.unknown: T.List[str] = []          # calls the region analysis does not understand
+        self.opaque_tests: T.List[str] = []     # conditions on helper results that could not be read
         self._prims: T.Dict[str, T.List[T.Tuple[Node, ast.Call]]] = {}
         self.bad_flags: T.List[T.Tuple[FuncRef, ast.Call, T.Set[str]]] = []
         self._acq: T.Dict[str, bool] = {}
@@ -1597,8 +1617,21 @@ class _LockImpl:
             return label
         if isinstance(test, ast.Call):
             h = self.helper(test)
-            if h is not None:
-                return label in self.optout_returns(h)
+            if h is not None and self.key(h) not in seen:
+                rets = [n for n in walk_no_nested(h.node) if isinstance(n, ast.Return)]
+                body = [st for st in h.node.body if not (isinstance(st, ast.Expr) and isinstance(st.value, ast.Constant))]
+                if len(rets) == 1 and len(body) == 1 and body[0] is rets[0] and rets[0].value is not None and not isinstance(rets[0].value, ast.Constant):
+                    # a predicate method `return <condition>`: the call is that condition
+                    return self._optout(h, rets[0].value, label, seen | {self.key(h)})
+                if self.key(h) not in self.cfgs:
+                    self.opaque_tests.append(f'{r.qn}: `{short(test)}`')
+                    return False
+                res = self.optout_returns(h)
+                if not res and any(isinstance(n.value, ast.AST) and not isinstance(n.value, ast.Constant) for n in rets if n.value is not None):
+                    self.opaque_tests.append(f'{r.qn}: `{short(test)}` (returns a computed value)')
+                return label in res
+            if h is None and isinstance(test.func, ast.Attribute) and isinstance(test.func.value, ast.Name) and test.func.value.id == 'self':
+                self.opaque_tests.append(f'{r.qn}: `{short(test)}` (method not found)')
         return False
 
     def optout_edge(self, r: FuncRef, a: Node, lab: T.Any) -> bool:
@@ -1712,6 +1745,8 @@ def r4_lock(ctx: RuleCtx) -> None:
         first = li.prims(with_prims[0])[0][1]
         # O1: every normal return of __enter__ has passed the primitive (directly or in a helper that guarantees it) or is the opt-out
         if li.unlocked_return(root):
+            if li.opaque_tests:
+                raise Undecided(f'{qn}: a return that does not pass `{short(first)}` exists behind conditions the rule could not read: {sorted(set(li.opaque_tests))[:3]}')
             if li.unknown:
                 raise Undecided(f'{qn}: a return that does not pass `{short(first)}` exists, but these calls were not followed: {li.unknown[:4]}')
             ctx.violation(mod, qn, first, f'__enter__ can return without having called `{short(first)}` and without the IGNORE/optional opt-out: the caller '
@@ -1727,6 +1762,8 @@ def r4_lock(ctx: RuleCtx) -> None:
             # O2: when the primitive raises, only IGNORE may continue
             reach_h = cfg.reachable(handlers, edge_ok=lambda a, b, lab, r=r: not li.optout_edge(r, a, lab))
             if cfg.exit_return.id in reach_h:
+                if li.opaque_tests:
+                    raise Undecided(f'{r.qn}: a handler of the lock primitive returns behind conditions the rule could not read: {sorted(set(li.opaque_tests))[:3]}')
                 if r.qn != root.qn:
                     raise Undecided(f'{r.qn}: a handler of the lock primitive returns to its caller; what the caller does with that is not followed')
                 ctx.violation(r.mod, r.qn, handlers[0].ast, 'a handler of the lock primitive returns normally without the IGNORE test: contention is silently ignored', handlers[0].ast)
